@@ -1420,6 +1420,15 @@ class Interp(object):
                 if taking == qual.endswith('takewhile'):
                     out.append(x)
             return GenList(out)
+        if qual == 'itertools.islice' and len(args) == 2 and isinstance(args[0], GenList) and isinstance(args[1], int) and not isinstance(args[1], bool) and args[1] >= 0:
+            # islice over an iterator takes its items off that iterator (here at once: the slice is the next n items, and the
+            # source continues behind them)
+            taken = GenList()
+            for _ in range(args[1]):
+                if not args[0]:
+                    break
+                taken.append(args[0].pop(0))
+            return taken
         if qual == 'itertools.islice' and len(args) >= 2 and isinstance(args[0], (list, tuple)) and all(a is None or (isinstance(a, int) and not isinstance(a, bool)) for a in args[1:]):
             import itertools as _it
             return GenList(_it.islice(list(args[0]), *args[1:]))
@@ -2295,6 +2304,24 @@ class Interp(object):
     def st_For(self, s, frame):
         it = self.ev(s.iter, frame)
         vals = self.on_for(s, it, frame)
+        if vals is None and isinstance(it, GenList):
+            # a generator is consumed by the loop, item by item: what the body takes with next() is not visited again
+            n = 0
+            while it:
+                n += 1
+                if n > self.UNROLL_CAP * 8:
+                    raise PathLimit('loop over a generator at %s not left after %d iterations' % (self.where(s, frame), n))
+                self.assign(s.target, it.pop(0), frame, s)
+                c = self.block(s.body, frame)
+                if c is not None:
+                    if c.kind == 'break':
+                        return None
+                    if c.kind == 'continue':
+                        continue
+                    return c
+            if s.orelse:
+                return self.block(s.orelse, frame)
+            return None
         if vals is None and isinstance(it, Native) and hasattr(it, 'next_value'):
             n = 0
             while True:
